@@ -1,0 +1,9 @@
+//go:build verif
+
+package vm
+
+// VerifRefs returns the VM's own count of items on the stacks, in slots and
+// reachable from them (read-only accessor for verification harnesses).
+func (v *VM) VerifRefs() int {
+	return int(v.refs)
+}
